@@ -16,6 +16,11 @@ def convert_code_string(code: str, filename="<string>", configs: Configs | None 
     if configs is None:
         configs = Configs()
 
+    # Let Python itself check the script first: some scripts can be parsed
+    # but not compiled (`return *a`, `__debug__ = 1`, `f(a=1, a=2)`, ...),
+    # they must be refused instead of being converted to something invalid.
+    compile(code, filename, "exec", dont_inherit=True)
+
     ast_root = ast.parse(code, filename, "exec")
     symtable_root = symtable.symtable(code, filename, "exec")
     out = convert(ast_root, symtable_root, configs)
